@@ -215,85 +215,9 @@ func runC19(c *Ctx) {
 	if nRT == 0 || setCall == nil {
 		c.Fail("SAME-ADDRESS", "interceptor", prov.Decl.Pos(), "RemoteToken call or Header.Set not found in the interceptor")
 	}
-	// connectclient.Make
-	if mk := p.Func("private/pkg/connectclient", "Make"); mk != nil {
-		info := mk.Info()
-		addrObj := info.Defs[mk.Decl.Type.Params.List[1].Names[0]]
-		g := p.CFGOf(mk.Decl.Body, info)
-		okArg, okOrder := false, true
-		var authCall *ast.CallExpr
-		var mapAssign ast.Node
-		ast.Inspect(mk.Decl.Body, func(n ast.Node) bool {
-			switch x := n.(type) {
-			case *ast.CallExpr:
-				if sel, ok := x.Fun.(*ast.SelectorExpr); ok && sel.Sel.Name == "authInterceptorProvider" && len(x.Args) == 1 {
-					authCall = x
-					okArg = identObj(info, x.Args[0]) == addrObj
-				}
-			case *ast.AssignStmt:
-				for _, l := range x.Lhs {
-					if identObj(info, l) == addrObj {
-						mapAssign = x
-					}
-				}
-			}
-			return true
-		})
-		if authCall != nil && mapAssign != nil {
-			// the provider call must not be reachable after the address was re-mapped
-			if g.Reachable(mapAssign, authCall) {
-				okOrder = false
-			}
-		}
-		c.Ob("SAME-ADDRESS", "connectclient.Make/provider-argument", mk.Decl.Pos(), authCall != nil && okArg && okOrder, true,
-			"authInterceptorProvider receives Make's address parameter (%v) before any address mapping (%v)", okArg, okOrder)
-		// per-call construction (added after seeded change C19-b): the interceptor is built for *this* call's address —
-		// the provider call is not deferred into a closure (sync.Once.Do), Make stores nothing into the shared Config,
-		// and what is appended to the interceptor list is the provider's result of this very call
-		cfgObj := info.Defs[mk.Decl.Type.Params.List[0].Names[0]]
-		inLit := false
-		if authCall != nil {
-			for q := p.Parent(authCall); q != nil && q != ast.Node(mk.Decl); q = p.Parent(q) {
-				if _, ok := q.(*ast.FuncLit); ok {
-					inLit = true
-				}
-			}
-		}
-		var cfgStores []string
-		appendedOK := false
-		ast.Inspect(mk.Decl.Body, func(n ast.Node) bool {
-			switch x := n.(type) {
-			case *ast.AssignStmt:
-				for _, l := range x.Lhs {
-					if sel, ok := ast.Unparen(l).(*ast.SelectorExpr); ok && identObj(info, sel.X) == cfgObj {
-						cfgStores = append(cfgStores, sel.Sel.Name)
-					}
-				}
-			case *ast.CallExpr:
-				if id, ok := x.Fun.(*ast.Ident); ok && id.Name == "append" && len(x.Args) == 2 && authCall != nil {
-					// append(interceptors, v) with v := authInterceptorProvider(address), or the call itself
-					arg := ast.Unparen(x.Args[1])
-					if arg == ast.Expr(authCall) {
-						appendedOK = true
-					} else if vo := identObj(info, arg); vo != nil {
-						if _, isField := arg.(*ast.SelectorExpr); !isField {
-							ast.Inspect(mk.Decl.Body, func(m ast.Node) bool {
-								if as, ok := m.(*ast.AssignStmt); ok && len(as.Lhs) == 1 && len(as.Rhs) == 1 && identObj(info, as.Lhs[0]) == vo && ast.Unparen(as.Rhs[0]) == ast.Expr(authCall) {
-									appendedOK = true
-								}
-								return true
-							})
-						}
-					}
-				}
-			}
-			return true
-		})
-		c.Ob("SAME-ADDRESS", "connectclient.Make/per-call-interceptor", mk.Decl.Pos(), authCall != nil && !inLit && len(cfgStores) == 0 && appendedOK, true,
-			"the auth interceptor is built on every Make call for that call's address: provider call outside any closure=%v, stores into the shared Config=%v, its result is what is appended to the interceptors=%v", !inLit, cfgStores, appendedOK)
-	} else {
-		c.Fail("SAME-ADDRESS", "connectclient.Make", token.NoPos, "not found")
-	}
+	// connectclient.Make - decided on SSA over Make and the functions of its package it calls (the body may be split
+	// into methods of Config)
+	c19MakeSameAddress(c)
 
 	// (3) exact match in every TokenProvider implementation
 	var tpIface *types.Interface
@@ -641,4 +565,120 @@ func splitOr(e ast.Expr) []ast.Expr {
 		return append(splitOr(be.X), splitOr(be.Y)...)
 	}
 	return []ast.Expr{e}
+}
+
+// c19MakeSameAddress: the interceptor that attaches the token is obtained from the provider with the address the
+// client is being made for, before that address is mapped (scheme prefix), on every Make call, and it is that result
+// which is appended to the interceptors of this client.
+func c19MakeSameAddress(c *Ctx) {
+	p := c.P
+	mk := p.Func("private/pkg/connectclient", "Make")
+	if mk == nil {
+		c.Fail("SAME-ADDRESS", "connectclient.Make", token.NoPos, "not found")
+		return
+	}
+	smk := p.SSAFunc(mk.Obj)
+	if smk == nil {
+		c.Fail("SAME-ADDRESS", "connectclient.Make", mk.Decl.Pos(), "no SSA body")
+		return
+	}
+	isFieldCall := func(cc *ssa.CallCommon, field string) bool {
+		if cc.IsInvoke() || cc.StaticCallee() != nil {
+			return false
+		}
+		u, ok := cc.Value.(*ssa.UnOp)
+		if !ok || u.Op != token.MUL {
+			return false
+		}
+		fa, ok := u.X.(*ssa.FieldAddr)
+		return ok && strings.HasSuffix(fieldName(fa.X.Type(), fa.Field), "connectclient.Config."+field)
+	}
+	var addr *ssa.Parameter
+	for _, prm := range smk.Params {
+		if b, ok := prm.Type().Underlying().(*types.Basic); ok && b.Kind() == types.String {
+			addr = prm
+		}
+	}
+	var parts []*ssa.Function
+	for _, f := range reachSSA(smk, 2) {
+		if f.Pkg != nil && f.Pkg == smk.Pkg {
+			parts = append(parts, f)
+		}
+	}
+	var prov *ssa.Call
+	var provFn *ssa.Function
+	for _, f := range parts {
+		for _, call := range callsIn(f) {
+			if cv, ok := call.Instr.(*ssa.Call); ok && isFieldCall(&cv.Call, "authInterceptorProvider") && len(cv.Call.Args) == 1 {
+				prov, provFn = cv, f
+			}
+		}
+	}
+	if prov == nil || addr == nil {
+		c.Fail("SAME-ADDRESS", "connectclient.Make/provider-argument", mk.Decl.Pos(), "no call of Config.authInterceptorProvider reachable from Make (or Make has no address parameter)")
+		return
+	}
+	// the argument is Make's own address parameter, unmapped: traced up through the parameters of package helpers
+	isMapped := func(v ssa.Value) bool {
+		return dependsOnCall(v, func(cc *ssa.CallCommon) bool { return isFieldCall(cc, "addressMapper") })
+	}
+	var fromAddr func(v ssa.Value, f *ssa.Function, depth int) bool
+	fromAddr = func(v ssa.Value, f *ssa.Function, depth int) bool {
+		if isMapped(v) {
+			return false
+		}
+		if f == smk {
+			return dependsOnValue(v, addr)
+		}
+		if depth == 0 {
+			return false
+		}
+		for i, prm := range f.Params {
+			if !dependsOnValue(v, prm) {
+				continue
+			}
+			callers := p.callersIndex()[f]
+			if len(callers) == 0 {
+				return false
+			}
+			for _, cs := range callers {
+				if i >= len(cs.Call.Args) || !fromAddr(cs.Call.Args[i], cs.Instr.Parent(), depth-1) {
+					return false
+				}
+			}
+			return true
+		}
+		return false
+	}
+	okArg := fromAddr(prov.Call.Args[0], provFn, 2)
+	c.Ob("SAME-ADDRESS", "connectclient.Make/provider-argument", prov.Pos(), okArg, true,
+		"authInterceptorProvider receives Make's own address parameter, not the mapped address: %v", okArg)
+	// per call: not deferred into a closure, nothing stored into the shared Config, the result is what is appended
+	inLit := provFn.Parent() != nil
+	var cfgStores []string
+	appendedOK := false
+	for _, f := range parts {
+		for _, g := range allSSAFuncs(f) {
+			for _, b := range g.Blocks {
+				for _, ins := range b.Instrs {
+					switch t := ins.(type) {
+					case *ssa.Store:
+						if fa, ok := t.Addr.(*ssa.FieldAddr); ok && strings.Contains(fieldName(fa.X.Type(), fa.Field), "connectclient.Config.") {
+							cfgStores = append(cfgStores, fieldName(fa.X.Type(), fa.Field))
+						}
+					case *ssa.Call:
+						if isBuiltinCall(&t.Call, "append") && len(t.Call.Args) == 2 {
+							for _, e := range append(variadicElems(t.Call.Args[1]), t.Call.Args[1]) {
+								if dependsOnValue(e, prov) {
+									appendedOK = true
+								}
+							}
+						}
+					}
+				}
+			}
+		}
+	}
+	c.Ob("SAME-ADDRESS", "connectclient.Make/per-call-interceptor", prov.Pos(), !inLit && len(cfgStores) == 0 && appendedOK, true,
+		"the auth interceptor is built on every Make call for that call's address: provider call outside any closure=%v, stores into the shared Config=%v, its result is what is appended to the interceptors=%v", !inLit, cfgStores, appendedOK)
 }
